@@ -895,6 +895,12 @@ pub fn run(ctx: &Ctx) -> (Report, PropertyMeta) {
     report.exhaustive_parts.push(format!("proxy(ROUTER, DEALER): {} odd messages (1..4 frames, identity-like / empty / arbitrary first frame) from either side", pc.len()));
     report.merge(r);
 
+    if t == Tier::Thorough {
+        crate::fuzzing::campaign(ctx, &mut report, "hostile", 420);
+    }
+    if t == Tier::Thorough {
+        crate::fuzzing::campaign(ctx, &mut report, "wire", 240);
+    }
     let total = report.evaluations;
     health(&mut report, "has-command-frame", total, 100);
     health(&mut report, "has-long-size", total, 100);
